@@ -205,7 +205,7 @@ def _oracle(ctx):
                     stats['patch'] = max(stats['patch'], err)
                     if err > worst.get(key, 0):
                         worst[key] = err
-                    if err > TOL:
+                    if not (err <= TOL):
                         ctx.fail(key, f'patch test: discrete solution deviates from the exact polynomial solution by {err:.2e} (rel)',
                                  {'mesh': desc, 'info': info, 'error': err, 'tolerance': TOL})
                     if len(ctx.cov['samples']) < 5 and info['neumann_facets'] and kind in ('tri', 'hex_affine'):
@@ -220,7 +220,7 @@ def _oracle(ctx):
                 ctx.count((key, desc, info), nontrivial=bool(info['neumann_facets']))
                 stats['patch'] = max(stats['patch'], err)
                 worst[key] = max(worst.get(key, 0), err)
-                if err > TOL:
+                if not (err <= TOL):
                     ctx.fail(key, f'elasticity patch test: deviation {err:.2e} (rel)', {'mesh': desc, 'info': info, 'error': err})
             # projections
             for ef, deg in O.elements_for(kind):
@@ -240,7 +240,7 @@ def _oracle(ctx):
                     ctx.count((key, desc, info), nontrivial=what != 'whole')
                     stats['projection'] = max(stats['projection'], err)
                     worst[key] = max(worst.get(key, 0), err)
-                    if err > TOL:
+                    if not (err <= TOL):
                         ctx.fail(key, f'projection of a function of the space onto {info["what"]} deviates by {err:.2e} (rel)',
                                  {'mesh': desc, 'info': info, 'error': err})
     # vector-valued / H(div) / H(curl) spaces: whole-mesh projection identity (oracle only)
@@ -259,7 +259,7 @@ def _oracle(ctx):
             err, info = r
             ctx.count((key, desc, info), nontrivial=True)
             stats['projection'] = max(stats['projection'], err)
-            if err > TOL:
+            if not (err <= TOL):
                 ctx.fail(key, f'projection of a function of the space onto the whole mesh deviates by {err:.2e}', {'mesh': desc, 'info': info})
     # curved second-order meshes
     for name, m, elems in O.curved_meshes(rng):
@@ -275,7 +275,7 @@ def _oracle(ctx):
                 ctx.count((key, name, info), nontrivial=True)
                 ctx.hist('mesh_kind', 'curved')
                 stats['curved'] = max(stats['curved'], err)
-                if err > TOL:
+                if not (err <= TOL):
                     ctx.fail(key, f'projection on the curved mesh {name} onto {info["what"]} deviates by {err:.2e}',
                              {'mesh': name, 'doflocs': m.doflocs.tolist(), 't': m.t.tolist(), 'info': info, 'error': err})
     ctx.extra['max_float_discrepancy'] = dict(stats, tolerance=TOL, margin=TOL / max(max(stats.values()), 1e-300))
